@@ -118,6 +118,8 @@ func (vm *VM) convertPanic(msg any) error {
 	switch err := msg.(type) {
 	case stopError:
 		return err
+	case *fatalError:
+		return err
 	case outError:
 		return vm.newPanic(err)
 	}
